@@ -21,7 +21,7 @@ class Verifier:
         self.carves = {}        # qual -> [(group regex, clause source)]
         from . import state as _state
         _state.AXIOMATIZER[0] = lambda fs: self.axioms_for(
-            fs, depth=self.eng.opts.get('unfold', 2))
+            fs, depth=self.eng.opts.get('unfold', 1))
 
     # ------------------------------------------------------ entry states
     def entry_states(self, fn, c):
@@ -308,15 +308,14 @@ class Verifier:
                             apps.append(t)
                             all_apps.setdefault(nm[3:], []).append(t)
                     stack.extend(t.children())
-            if level == depth:
-                break
             frontier = []
-            for t in apps:
-                f = decls[t.decl().name()]
-                body = eng.models.spec_body(eng, f, list(t.children()))
-                ax = (t == body.t)
-                axioms.append(ax)
-                frontier.append(ax)
+            if level < depth:
+                for t in apps:
+                    f = decls[t.decl().name()]
+                    body = eng.models.spec_body(eng, f, list(t.children()))
+                    ax = (t == body.t)
+                    axioms.append(ax)
+                    frontier.append(ax)
             if level <= eng.opts.get('lemma_levels', 1):
                 for lem in eng.specs.lemmas.values():
                     if lem.name in exclude:
@@ -331,6 +330,11 @@ class Verifier:
                             eng, lem, [binding[p] for p in lem.params])
                         axioms.append(inst.t)
                         frontier.append(inst.t)
+            if level == depth:
+                break
+        for p in eng.models.plugins:
+            if hasattr(p, 'axioms'):
+                axioms.extend(p.axioms(list(formulas) + axioms))
         return axioms
 
     def match_triggers(self, lem, all_apps):
